@@ -562,13 +562,26 @@ def gen_switch_router(w, node_ids, fixed_operand=None):
             rng.shuffle(e2)
         exits = e2
         w.count("exits_not_in_category_order")
-    if w.f.get("shared_exit") and len(r["categories"]) >= 2 and rng.random() < 0.6:
-        a, b = rng.sample(range(len(r["categories"])), 2)
-        dropped = r["categories"][b]["exit_uuid"]
-        r["categories"][b]["exit_uuid"] = r["categories"][a]["exit_uuid"]
-        exits = [e for e in exits if e["uuid"] != dropped]
-        w.count("exit_shared_by_categories")
+    exits = share_exit(w, r["categories"], exits, 0.2)
     return r, exits
+
+
+def share_exit(w, cats, exits, p):
+    """two categories referencing one exit: an ordinary case since "fix: an exit shared by several
+    categories of a router is rendered once".  The shared exit stands where its first category
+    stands (canonical); with the exit_order input class it may stand at the later one."""
+    rng = w.rng
+    if len(cats) >= 2 and rng.random() < p:
+        a, b = sorted(rng.sample(range(len(cats)), 2))
+        if w.f.get("exit_order") and rng.random() < 0.5:
+            a, b = b, a
+            w.count("exits_not_in_category_order")
+        if cats[b]["exit_uuid"] != cats[a]["exit_uuid"]:
+            dropped = cats[b]["exit_uuid"]
+            cats[b]["exit_uuid"] = cats[a]["exit_uuid"]
+            exits = [e for e in exits if e["uuid"] != dropped]
+            w.count("exit_shared_by_categories")
+    return exits
 
 
 def gen_random_router(w, node_ids):
@@ -590,6 +603,7 @@ def gen_random_router(w, node_ids):
             rng.shuffle(e2)
         exits = e2
         w.count("exits_not_in_category_order")
+    exits = share_exit(w, cats, exits, 0.15)
     return r, exits
 
 
@@ -711,8 +725,8 @@ def gen_trigger(w):
 
 # input classes of the findings that are still open (category/exit order is rebuilt from the router's
 # category slots).  Typed field references and top-level group attributes used to be here: since their
-# repairs they are ordinary cases of every stream.
-FEATURES = ["default_not_last", "exit_order", "shared_exit"]
+# repairs they are ordinary cases of every stream; so are exits shared by categories.
+FEATURES = ["default_not_last", "exit_order"]
 
 
 def gen_doc(rng, feats, action_map):
@@ -987,8 +1001,8 @@ def run(ctx):
         "action_map incl. pass-through kinds with unknown extra fields, optional fields present/absent/empty/null, typed and untyped "
         "contact-field references, top-level groups with and without query/status/system/count, categories shared "
         "by cases, all node kinds, 0..8 nodes, _ui positions, campaigns with M/F events, triggers in new/keywords-only/legacy form, "
-        "shuffled key order), 30% with the input classes of the open findings (default "
-        "category not last, exits not in category order, exit shared by categories), 15% malformed (one structural fault). "
+        "exits shared by two categories, shuffled key order), 30% with the input classes of the open findings (default "
+        "category not last, exits not in category order), 15% malformed (one structural fault). "
         "Each valid document: oracle render(load d) vs norm d field by field + idempotence + input untouched on the implementation; "
         "every document: extracted model vs implementation on the full output. non-trivial = distinct set of construct kinds "
         "(node/action/trigger/event kinds, optional-field situations) of a document with at least one node")
